@@ -77,6 +77,9 @@ func historyLabels(h txh.History) (labels []string, outOfNodeRewrite, big bool) 
 					seen["outOfNodeRewriteOfCommitted"] = true
 				}
 			}
+			if (o.Kind == "updateKey" || o.Kind == "curUpdateKey") && pl != 0 && written[[2]int{o.S, o.K}] && p.Mode == sop.ForWriting {
+				seen["keyOnlyUpdateOfOutOfNodeItem"] = true
+			}
 			if p.Mode == sop.ForWriting && p.End == "commit" {
 				switch o.Kind {
 				case "add", "addIfNotExist", "upsert", "update", "curUpdate":
